@@ -18,7 +18,10 @@ open Opus Opus.Ext Opus.ExtProofs
     (`init`, then any sequence of `next` / `reset` / `set_frame_max`), `opus_extension_iterator_next`
     returns normally — it reads no byte outside `d` (model outcome `.oob`), neither of its two
     `celt_assert`s (extensions.c:174, :192/:242) fires (`.abort`) — and an extension it reports has
-    `3 ≤ id ≤ 127`, belongs to an existing frame and has its payload slice inside the buffer. -/
+    `3 ≤ id ≤ 127`, belongs to an existing frame and has its payload slice inside the buffer.
+    NOTE: for `nbFrames > 48` (or a negative count) `Reach d nbFrames` is empty — `iterInit` is the model's
+    `celt_assert(nb_frames >= 0 && nb_frames <= 48)` and aborts there — so the statement is vacuous for such
+    `nbFrames`; harmless, the C function must not be called that way (its callers pass at most 48). -/
 theorem iter_safe (d : Bytes) (hb : BytesOk d) (nbFrames : Nat) (it : Iter) (hr : Reach d nbFrames it) :
     ∃ it' s, next it = .ok (it', s) ∧
       ∀ e, s = .ext e →
@@ -61,6 +64,22 @@ theorem count_parse_agree (d : Bytes) (hb : BytesOk d) (nbFrames : Nat) (hnf : n
         parse d d.length cap nbFrames = if s = .done then .ok l else .err .invalidPacket) ∧
       (∀ cap : Int, 0 ≤ cap → cap < l.length → parse d d.length cap nbFrames = .err .bufferTooSmall) :=
   scan_agree d hb nbFrames hnf
+
+/-- **find_spec.**  `opus_extension_iterator_find(iter, ext, id)` from any reachable state: with `l` the extensions
+    plain iteration (`next` until it returns `≤ 0`) would report from this state on and `s` its final return value
+    (`0` or `OPUS_INVALID_PACKET`), `find` returns the FIRST entry of `l` whose ID is `id` and leaves the iterator
+    exactly where iteration would continue (the remaining entries `post` are what `next` reports afterwards); if no
+    entry has that ID it returns `s`.  It always returns normally (no out-of-bounds read, no assertion: the state
+    stays reachable, so `iter_safe` applies to every `next` it performs) and terminates (`find` is total, its
+    recursion is the well-founded step relation of `iter_terminates`). -/
+theorem find_spec (d : Bytes) (hb : BytesOk d) (nbFrames : Nat) (it : Iter) (hr : Reach d nbFrames it) (id : Int) :
+    ∃ l s, iterAll it = .ok (l, s) ∧ (s = .done ∨ s = .invalid) ∧
+      (∀ pre e post, l = pre ++ e :: post → (∀ x ∈ pre, (x.id : Int) ≠ id) → (e.id : Int) = id →
+        ∃ it', find it id = .ok (it', .ext e) ∧ Reach d nbFrames it' ∧ iterAll it' = .ok (post, s)) ∧
+      ((∀ x ∈ l, (x.id : Int) ≠ id) → ∃ it', find it id = .ok (it', s) ∧ Reach d nbFrames it') := by
+  obtain ⟨l, s, h1, h2, _⟩ := iterAll_inv it (hr.inv hb).1
+  obtain ⟨h3, h4⟩ := find_iterAll (Reach d nbFrames) (fun _ _ _ hp hn => .next hp hn) id it l s h1 hr
+  exact ⟨l, s, h1, h2, h3, h4⟩
 
 /-- **count_parse_agree (frame order).**  `parse_ext`, given the per-frame counts that `count_ext`
     reports and room for all extensions, returns the stable sort by frame of what `parse` returns
@@ -371,6 +390,13 @@ example : ∃ l, parse (serAll exExts.size (queues exExts 2) 0 0) (serAll exExts
     l.length = exExts.size := by
   obtain ⟨_, refs, h1, h2, _⟩ := generate_parse exExts 2 (by decide) (allValid_of_all _ _ (by decide +kernel)) 1000 (by decide +kernel) 10 (by decide +kernel)
   exact ⟨refs, h1, h2⟩
+
+/-- hypotheses of `find_spec`: a reachable state on `exPad` (any ID may be asked for). -/
+example : ∃ it l s, Reach exPad 2 it ∧ iterAll it = .ok (l, s) ∧
+    ((∀ x ∈ l, (x.id : Int) ≠ 99) → ∃ it', find it 99 = .ok (it', s)) := by
+  obtain ⟨it, hit⟩ : ∃ it, iterInit exPad exPad.length 2 = .ok it := ⟨_, rfl⟩
+  obtain ⟨l, s, h1, _, _, h4⟩ := find_spec exPad (by decide) 2 it (.init hit) 99
+  exact ⟨it, l, s, .init hit, h1, fun h => by obtain ⟨it', h5, _⟩ := h4 h; exact ⟨it', h5⟩⟩
 
 /-- hypotheses of the `int_ranges_*` theorems. -/
 example : BytesOk exPad ∧ (exPad.length : Int) ≤ 2147483647 := by decide
